@@ -1,43 +1,14 @@
 (* Case checker for C03 (lines break only where breaking is allowed): same cases and correspondence as
    Check/C02.v; kind 3 = the C03 oracle (check_break_positions) fails on the implementation's output;
-   (kind 11, the truncated line ending at a boundary between two input runs - finding F8 - is repaired in the library
-   and no longer classified: it would be reported as kind 3);
-   kind 12 = it fails only on lines that contain a UAX #14 opportunity which is not a grapheme cluster boundary (F22). *)
+   (kind 11, the truncated line ending at a boundary between two input runs - finding F8 - and kind 12, lines around a
+   UAX #14 opportunity that is not a grapheme cluster boundary - finding F37 - are repaired in the library and no longer
+   classified: they would be reported as kind 3). *)
 From TV Require Export Check.C02.
 
-Definition interior_run_boundary (rs : list out) (n e : Z) : bool :=
-  (0 <? e) && (e <? n) && existsb (fun r => o_off r =? e) rs.
-
-(* the lines that fail the C03 oracle, judged one by one: (index, start, end) *)
-Fixpoint c03_failing (attrs : list Z) (st0 : store) (rs : list out) (n tsrc pdir policy trunc_k : Z)
-         (i : Z) (pos : Z) (lines : list (list out)) (widths : list Z) : list (Z * Z * Z * list out) :=
-  match lines with
-  | [] => []
-  | l :: rest =>
-      let e := match rev (text_runs tsrc l) with r :: _ => out_end r | [] => pos end in
-      (if check_lines_c03 attrs st0 rs n pdir policy trunc_k (measurable_runs st0 rs) i [(pos, e)] widths then [] else [(i, pos, e, l)])
-      ++ c03_failing attrs st0 rs n tsrc pdir policy trunc_k (i + 1) e rest (tl widths)
-  end.
-
-(* F22: a UAX #14 opportunity that is not a grapheme cluster boundary (e.g. between a space and a combining mark)
-   at or inside the failing line: the wrapper drops that candidate and WrapNextLine returns a nil line *)
-Definition lb_not_gb (attrs : list Z) (n p : Z) : bool :=
-  (0 <? p) && (p <? n) && line_boundary attrs p && negb (grapheme_boundary attrs p).
-Definition exists_in (a b : Z) (f : Z -> bool) : bool :=   (* a <= p <= b *)
-  negb (forall_between (a - 1) (b + 1) (fun p => negb (f p))).
-Definition f22_line (attrs : list Z) (n : Z) (x : Z * Z * Z * list out) : bool :=
-  let '(i, s, e, l) := x in exists_in s e (lb_not_gb attrs n).
-
 Definition c03_kind (c : case) (st0 st1 : store) (cl : call) : nat :=
-  if negb (adv_consistent st0 (case_runs c)) then 0%nat      (* inputs already edited by an earlier call (F6): out of scope here *)
-  else if check_break_positions (k_attrs c) (case_n c) (case_runs c) st0 (case_tsrc c) (cl_dir cl) (cl_policy cl) (cl_trunc cl)
+  if check_break_positions (k_attrs c) (case_n c) (case_runs c) st0 (case_tsrc c) (cl_dir cl) (cl_policy cl) (cl_trunc cl)
             (call_lines cl) (call_line_widths cl)
   then 0%nat
-  else
-    let fl := c03_failing (k_attrs c) st0 (case_runs c) (case_n c) (case_tsrc c) (cl_dir cl) (cl_policy cl) (cl_trunc cl) 0 0
-                          (call_lines cl) (call_line_widths cl) in
-    let is22 := f22_line (k_attrs c) (case_n c) in
-    (* every failing line must match the narrow predicate *)
-    if forallb is22 fl then 12%nat else 3%nat.
+  else 3%nat.
 
 Definition check_all (cs : list case) : list (nat * nat) := check_from c03_kind 0 cs.
